@@ -1,0 +1,21 @@
+//! Observation hooks for the external verification harness (only compiled
+//! with `--cfg oh_verif`): a per-thread counter of paving operations done by
+//! normalization. Observes only; never changes a result.
+
+use std::cell::Cell;
+
+thread_local! {
+    static PAVING_OPS: Cell<u64> = const { Cell::new(0) };
+}
+
+/// Count one elementary paving operation (a column visited by `set`, a column
+/// tested by `pop_filter`).
+#[inline]
+pub fn paving_op() {
+    PAVING_OPS.with(|c| c.set(c.get() + 1));
+}
+
+/// Read and reset the counter of the current thread.
+pub fn take_paving_ops() -> u64 {
+    PAVING_OPS.with(|c| c.replace(0))
+}
